@@ -151,3 +151,44 @@ def c11_de_best_predates_collapse(v):
     r = v['record']
     return (r.get('clause', '').startswith('solver:the final solution satisfies') and r.get('solver') in ('de', 'de2')
             and r.get('best_unchanged_since_a_collapse') is True)
+
+
+def _c13_outside_explained(r):
+    """-> (all outside coordinates explained, #degenerate, #rounded)"""
+    out = r.get('outside') or []
+    deg = set(r.get('degenerate_sides') or [])
+    flags = r.get('outside_is_bound_rounded_to_15_digits') or [False] * len(out)
+    nd = sum(1 for k in out if k in deg)
+    nr = sum(1 for k, f in zip(out, flags) if f and k not in deg)
+    return bool(out) and nd + nr == len(out), nd, nr
+
+
+@predicate
+def c13_symbolic_bounds_degenerate_side(v):
+    r = v['record']
+    if not (r.get('clause', '').startswith('bounds:the bounds constraint clips into the box') and r.get('symbolic') is True):
+        return False
+    ok, nd, nr = _c13_outside_explained(r)
+    return ok and nd >= 1
+
+
+@predicate
+def c13_symbolic_bounds_no_usable_side(v):
+    r = v['record']
+    return (r.get('clause', '').startswith('bounds:building the bounds constraint raised') and r.get('symbolic') is True
+            and r.get('error') == 'ZeroDivisionError' and r.get('usable_sides') == 0)
+
+
+@predicate
+def c13_named_variable_substring(v):
+    r = v['record']
+    return r.get('clause', '').startswith('rel:named variables are substituted as whole names') and bool(r.get('names_inside_function_name'))
+
+
+@predicate
+def c13_symbolic_bounds_rounded(v):
+    r = v['record']
+    if not (r.get('clause', '').startswith('bounds:the bounds constraint clips into the box') and r.get('symbolic') is True):
+        return False
+    ok, nd, nr = _c13_outside_explained(r)
+    return ok and nr >= 1
